@@ -111,6 +111,12 @@ func (r *HTMLRenderer) AppendBlock(dst []byte, block *RootBlock) []byte {
 				return state.preBlock(block.Source, c)
 			}
 			if i := c.Node().Inline(); i != nil {
+				if i.Kind() == SoftLineBreakKind && c.ParentBlock().Kind().IsCode() {
+					// The line ending the parser supplies for a code block that ends at the end of input
+					// is part of the code, whatever the soft line break behavior is.
+					state.dst = append(state.dst, '\n')
+					return false
+				}
 				return state.preInline(block.Source, i)
 			}
 			return true
